@@ -188,7 +188,22 @@ func writeIsTriviallySerializableSpecializations(w *formatting.IndentedWriter, e
 	w.WriteStringln("#endif\n")
 
 	for _, ns := range env.Namespaces {
+		// A record that changed since a previous version is also read and written through
+		// its compatibility serializers, for which its in-memory layout is not the wire format:
+		// the containers it is stored in must go through the element serializers.
+		changedRecords := make(map[string]bool)
+		for _, versionLabel := range ns.Versions {
+			for _, change := range ns.DefinitionChanges[versionLabel] {
+				if recordChange, ok := change.(*dsl.RecordChange); ok {
+					changedRecords[recordChange.LatestDefinition().GetDefinitionMeta().GetQualifiedName()] = true
+				}
+			}
+		}
+
 		for _, td := range ns.TypeDefinitions {
+			if changedRecords[td.GetDefinitionMeta().GetQualifiedName()] {
+				continue
+			}
 			writeIsTriviallySerializableSpecialization(w, td)
 		}
 	}
